@@ -233,8 +233,8 @@ func footer(e *env) {
 		return
 	}
 	for _, p := range nils {
-		ok, w := g.OnlyViaFact(p, eq)
-		switch inv, _ := g.OnlyViaFact(p, neq); {
+		ok, w := onlyVia(g, p, eq)
+		switch inv, _ := onlyVia(g, p, neq); {
 		case ok:
 			c.Okf("R3.footer", "Footer/mismatch-rejected", p.Node().Pos(), "Footer succeeds only when the computed CRC equals the stored one")
 		case inv:
@@ -242,14 +242,13 @@ func footer(e *env) {
 		case uses(info, foot.Decl.Body, objOf(info, readAs.Lhs[0])) == 0 || uses(info, foot.Decl.Body, objOf(info, sumAs.Lhs[0])) == 0:
 			c.Check("R3.footer", "Footer/mismatch-rejected", p.Node().Pos(), false, "the computed CRC is never compared with the stored one: an RDB with any corrupted byte is accepted", w...)
 		default:
-			if n, _ := pat.Expr("_a != _b").Find(info, foot.Decl.Body, bd); n != nil {
-				c.Check("R3.footer", "Footer/mismatch-rejected", p.Node().Pos(), false, "Footer can return success although computed and stored CRC differ: a corrupted RDB is accepted", w...)
-			} else {
-				c.Undecidedf("R3.footer", "Footer/mismatch-rejected", p.Node().Pos(), "cannot see how the two CRC values are compared")
-			}
+			c.Undecidedf("R3.footer", "Footer/mismatch-rejected", p.Node().Pos(), "cannot see that success is returned only when the two CRC values are equal")
 		}
-		ok2, w2 := g.OnlyViaFact(p, noErr)
-		c.Check("R3.footer", "Footer/read-error-rejected", p.Node().Pos(), ok2, "a failed/short trailer read must fail the footer check (a truncated RDB would otherwise compare against stale bytes)", w2...)
+		if ok2, _ := onlyVia(g, p, noErr); ok2 {
+			c.Okf("R3.footer", "Footer/read-error-rejected", p.Node().Pos(), "a failed/short trailer read fails the footer check")
+		} else {
+			c.Undecidedf("R3.footer", "Footer/read-error-rejected", p.Node().Pos(), "cannot see that a failed trailer read fails the footer check")
+		}
 	}
 }
 
@@ -496,7 +495,7 @@ func verifier(e *env, fn *core.Fn) {
 			if !ok {
 				return false, []string{"access not in the control-flow graph: " + a.desc}
 			}
-			if ok, w := v.g.OnlyViaFact(p, func(f cfgq.Fact) bool { return v.lower(f) >= min }); !ok {
+			if ok, w := onlyVia(v.g, p, func(f cfgq.Fact) bool { return v.lower(f) >= min }); !ok {
 				return false, w
 			}
 		}
@@ -505,9 +504,26 @@ func verifier(e *env, fn *core.Fn) {
 	if len(acc) > 0 {
 		ok10, w := guard(10)
 		ok13, _ := guard(13)
+		ok1, _ := guard(1)
+		lenTests := 0
+		ast.Inspect(fn.Decl.Body, func(n ast.Node) bool {
+			if be, ok := n.(*ast.BinaryExpr); ok {
+				a1, _, k1 := v.lin(be.X, 0)
+				a2, _, k2 := v.lin(be.Y, 0)
+				switch be.Op {
+				case token.LSS, token.LEQ, token.GTR, token.GEQ, token.EQL, token.NEQ:
+					if k1 && a1 != 0 || k2 && a2 != 0 {
+						lenTests++
+					}
+				}
+			}
+			return true
+		})
 		switch {
+		case !ok10 && (ok1 || lenTests == 0):
+			c.Check("R3.verify", key("length-guard"), fn.Decl.Pos(), false, "every access to the payload must be preceded by the rejection of len(d) < 10 (found a weaker test or none): a payload shorter than its 10-byte trailer makes the index negative and the tool panics instead of rejecting it", w...)
 		case !ok10:
-			c.Check("R3.verify", key("length-guard"), fn.Decl.Pos(), false, "every access to the payload must be preceded by the rejection of len(d) < 10: a payload shorter than its 10-byte trailer makes the index negative and the tool panics instead of rejecting it", w...)
+			c.Undecidedf("R3.verify", key("length-guard"), fn.Decl.Pos(), "cannot see that len(d) < 10 is rejected before the payload is indexed")
 		case ok13:
 			c.Check("R3.verify", key("length-guard"), fn.Decl.Pos(), false, "the length guard rejects payloads of 12 bytes, which is a valid DUMP of an empty string (type, length 0, trailer)")
 		default:
@@ -642,19 +658,20 @@ func verifier(e *env, fn *core.Fn) {
 	})
 	for _, p := range nils {
 		pos := p.Node().Pos()
-		okC, wC := v.g.OnlyViaFact(p, func(f cfgq.Fact) bool { eq, ok := crcAtom(f.Expr); return ok && eq == f.Val })
+		okC, wC := onlyVia(v.g, p, func(f cfgq.Fact) bool { eq, ok := crcAtom(f.Expr); return ok && eq == f.Val })
+		invC, _ := onlyVia(v.g, p, func(f cfgq.Fact) bool { eq, ok := crcAtom(f.Expr); return ok && eq != f.Val })
 		switch {
 		case okC:
 			c.Okf("R3.verify", key("mismatch-rejected"), pos, "success only when stored CRC == digest")
-		case anyCrcAtom:
-			c.Check("R3.verify", key("mismatch-rejected"), pos, false, name+" can succeed although the stored CRC differs from the digest (or only when it differs): an altered payload is accepted", wC...)
-		case crcCall != nil && digCall != nil:
+		case invC:
+			c.Check("R3.verify", key("mismatch-rejected"), pos, false, name+" succeeds exactly when the stored CRC DIFFERS from the digest: every intact payload is rejected, altered ones accepted", wC...)
+		case crcCall != nil && digCall != nil && !anyCrcAtom && !inBinary(fn.Decl.Body, info, crcCall, digCall):
 			c.Check("R3.verify", key("mismatch-rejected"), pos, false, name+" reads the stored CRC and computes the digest but never compares them: an altered payload is accepted", wC...)
 		default:
 			c.Undecidedf("R3.verify", key("mismatch-rejected"), pos, "cannot see how stored CRC and digest are compared")
 		}
-		okV, wV := v.g.OnlyViaFact(p, func(f cfgq.Fact) bool { acc, ok := verAtom(f); return ok && acc })
-		inv, _ := v.g.OnlyViaFact(p, func(f cfgq.Fact) bool { acc, ok := verAtom(f); return ok && !acc })
+		okV, wV := onlyVia(v.g, p, func(f cfgq.Fact) bool { acc, ok := verAtom(f); return ok && acc })
+		inv, _ := onlyVia(v.g, p, func(f cfgq.Fact) bool { acc, ok := verAtom(f); return ok && !acc })
 		switch {
 		case okV:
 			c.Okf("R3.verify", key("version-rejected"), pos, "success only when the trailer version is within the supported bound")
@@ -709,4 +726,24 @@ func (v *verif) shiftApplied(e ast.Expr) (int64, bool) {
 		}
 	}
 	return 0, false
+}
+
+// inBinary: the value of one of the calls (directly or through a
+// single-assignment local) is an operand of some binary expression.
+func inBinary(root ast.Node, info *types.Info, calls ...*ast.CallExpr) bool {
+	hit := false
+	ast.Inspect(root, func(n ast.Node) bool {
+		if be, ok := n.(*ast.BinaryExpr); ok {
+			for _, side := range []ast.Expr{be.X, be.Y} {
+				o := origin(info, root, side)
+				for _, c := range calls {
+					if o == ast.Expr(c) {
+						hit = true
+					}
+				}
+			}
+		}
+		return true
+	})
+	return hit
 }
